@@ -6,3 +6,8 @@ func raceDisable() {}
 func raceEnable()  {}
 
 const RaceEnabled = false
+
+func RaceErrors() int { return 0 }
+
+func raceReleaseMergeJoin() {}
+func raceAcquireJoin()      {}
